@@ -6,6 +6,7 @@ package main
 
 import (
 	"fmt"
+	"go/types"
 	"sort"
 	"strings"
 )
@@ -83,6 +84,13 @@ func (e *Enc) declConst(name string, s Sort) T {
 	if _, ok := e.decls[qn]; !ok {
 		e.decls[qn] = fmt.Sprintf("(declare-const %s %s)", qn, s)
 		e.autoFacts(qn, s)
+		if strings.HasSuffix(name, "@0") && strings.HasPrefix(name, "H_") {
+			// entry version of a heap array: its references predate the entry allocation counter
+			e.refWf(strings.TrimSuffix(name, "@0"), T{qn, s}, T{"|alloc@0|", SInt})
+			if _, ok := e.decls["|alloc@0|"]; !ok {
+				e.decls["|alloc@0|"] = "(declare-const |alloc@0| Int)"
+			}
+		}
 	}
 	return T{qn, s}
 }
@@ -98,6 +106,33 @@ func (e *Enc) declFun(name string, args []Sort, ret Sort) string {
 	}
 	return qn
 }
+
+// refWf: references stored in a (havoced or initial) heap array predate its allocation bound.
+func (e *Enc) refWf(name string, arr T, bound T) {
+	if !strings.HasPrefix(name, "H_") {
+		return
+	}
+	key := "wf:" + arr.S
+	if e.wfDone[key] {
+		return
+	}
+	ft := e.prog.fieldTypeByArray(name)
+	if ft == nil {
+		return
+	}
+	var body string
+	switch ft.Underlying().(type) {
+	case *types.Slice:
+		body = fmt.Sprintf("(and (<= (sptr (select %[1]s r!w)) %[2]s) (<= 0 (slen (select %[1]s r!w))) (<= (slen (select %[1]s r!w)) (scap (select %[1]s r!w))) (<= 0 (soff (select %[1]s r!w))) (<= 0 (sptr (select %[1]s r!w))))", arr.S, bound.S)
+	case *types.Pointer, *types.Map:
+		body = fmt.Sprintf("(and (<= 0 (select %s r!w)) (<= (select %s r!w) %s))", arr.S, arr.S, bound.S)
+	default:
+		return
+	}
+	e.wfDone[key] = true
+	e.addFact(arr.S, fmt.Sprintf("(assert (forall ((r!w Int)) (! %s :pattern ((select %s r!w)))))", body, arr.S))
+}
+
 
 // autoFacts: ground instances of the sort axioms for a newly declared constant.
 func (e *Enc) autoFacts(qn string, s Sort) {
